@@ -144,6 +144,9 @@ def direction_a(ck, dev):
                         "ImageCases": "<- NoImageCases"}, ["AStart", "ATryDir"]),
               ("image", {"MaxSeg": 0, "MaxSegImage": b["image"], "Names": "<- ImageNames", "CMapSites": "<- NoSites",
                          "ImageCases": "<- " + b["image_cases"]}, ["AStart", "AExport"])]
+    # names that go through the symbolic link inside the resource directory (and back up)
+    spaces.append(("cmaplink", {"MaxSeg": 3, "MaxSegImage": 0, "Names": "<- LinkNames", "CMapSites": "<- AllCMapSites",
+                                "ImageCases": "<- NoImageCases"}, ["AStart", "ATryDir"]))
     # names spelled with characters that only look like separators / dots (fullwidth, one dot leader, ligatures, overlong UTF-8)
     spaces.append(("imagelook", {"MaxSeg": 0, "MaxSegImage": b["look"], "Names": "<- LookNames", "CMapSites": "<- NoSites",
                                  "ImageCases": "<- LookImageCases" + ("Quick" if ck.tier == "quick" else "")}, ["AStart", "AExport"]))
@@ -155,6 +158,9 @@ def direction_a(ck, dev):
     if ck.tier == "thorough":
         spaces.append(("imagemany", {"MaxSeg": 0, "MaxSegImage": 1, "Names": "<- OneName", "CMapSites": "<- NoSites",
                                      "ImageCases": "<- ManyImageCases"}, ["AStart", "AExport"]))
+    # inline images that get the same name (one per page / page + form), empty and pre-populated directory
+    spaces.append(("imageinline", {"MaxSeg": 0, "MaxSegImage": 1, "Names": "<- OneName", "CMapSites": "<- NoSites",
+                                   "ImageCases": "<- InlineImageCases"}, ["AStart", "AExport"]))
     # every way the image dictionary's entries can fill the extension, XObject and inline images
     spaces.append(("imageext", {"MaxSeg": 0, "MaxSegImage": b["image_ext"], "Names": "<- ImageNamesRel", "CMapSites": "<- NoSites",
                                 "ImageCases": "<- ExtImageCases"}, ["AStart", "AExport"]))
@@ -202,40 +208,47 @@ def direction_a(ck, dev):
                         image_cases.append(r)
                     else:
                         n_emitted -= 1          # the deep space repeats some shallow cases
+                elif name == "cmaplink":
+                    # names through the symbolic link: once with CMAP_PATH naming the directory, once naming a link to it
+                    if "lnk" in r["n"]["segs"]:
+                        by_site.setdefault((r["s"], "res"), []).append(r)
+                    else:
+                        n_emitted -= 1          # (with the directory itself these names are in the main space already)
+                    by_site.setdefault((r["s"], "reslnk"), []).append(r)
+                    n_emitted += 1
                 else:
-                    by_site.setdefault(r["s"], []).append(r)
+                    by_site.setdefault((r["s"], "res"), []).append(r)
     if n_emitted == 0:
         raise MachineryError("no terminal states emitted")
     jobs = []
     batches = {}
     jid = 0
-    for site, recs in sorted(by_site.items()):
+    for (site, via), recs in sorted(by_site.items()):
         recs.sort(key=lambda r: (len(r["n"]["segs"]), r["n"]["abs"], r["n"]["segs"]))
-        # keep names whose prediction is a read apart from each other so that a batch has at most a few reads
         for k in range(0, len(recs), BATCH):
             group = recs[k:k + BATCH]
-            jobs.append(cmap_job(jid, site, group))
-            batches[jid] = (site, group)
+            jobs.append(cmap_job(jid, site, group, via))
+            batches[jid] = (site, group, via)
             jid += 1
     res, meta = run_workers(ck, jobs, "cmap")
     ck.extra["audit_subprocess_pdfminer"] = meta.get("pdfminer")
     retry = []
     drift = 0
-    for j, (site, group) in batches.items():
-        ok = judge_cmap(ck, site, group, res[j], meta, final=False)
+    for j, (site, group, via) in batches.items():
+        ok = judge_cmap(ck, site, group, res[j], meta, final=False, via=via)
         if not ok:
-            retry.extend((site, [r]) for r in group)
+            retry.extend((site, [r], via) for r in group)
     if retry:
         jobs2, batches2 = [], {}
-        for site, group in retry:
-            jobs2.append(cmap_job(jid, site, group))
-            batches2[jid] = (site, group)
+        for site, group, via in retry:
+            jobs2.append(cmap_job(jid, site, group, via))
+            batches2[jid] = (site, group, via)
             jid += 1
         res2, meta = run_workers(ck, jobs2, "cmap2")
-        for j, (site, group) in batches2.items():
-            if not judge_cmap(ck, site, group, res2[j], meta, final=True):
+        for j, (site, group, via) in batches2.items():
+            if not judge_cmap(ck, site, group, res2[j], meta, final=True, via=via):
                 drift += 1
-    replayed = sum(len(g) for _, g in batches.values())
+    replayed = sum(len(g) for _, g, _ in batches.values())
     # ------------------------------------------------------------------ image site
     ijobs = []
     icases = {}
@@ -255,15 +268,16 @@ def direction_a(ck, dev):
         ck.note("%d cases where the real code and the as-coded model disagree (spec/code drift)" % drift)
 
 
-def cmap_job(jid, site, group):
+def cmap_job(jid, site, group, via="res"):
+    """via: what CMAP_PATH names - the resource directory ("res") or a symbolic link to it ("reslnk")"""
     def fin(j):
         texts = [fsdoc.spell(r["n"], j["root"]) for r in group]
         j["pdf"] = base64.b64encode(fsdoc.cmap_doc(site, texts)).decode()
     return {"id": jid, "dirs": fsdoc.TREE_DIRS, "files": [[p, "pickle"] for p in fsdoc.TREE_PICKLES], "images": False,
-            "finalise": fin}
+            "symlinks": fsdoc.TREE_LINKS, "cmap_path": via, "finalise": fin}
 
 
-def judge_cmap(ck, site, group, res, meta, final):
+def judge_cmap(ck, site, group, res, meta, final, via="res"):
     root = os.path.dirname(res["input"])
     predicted = set()
     blamed = False
@@ -277,7 +291,7 @@ def judge_cmap(ck, site, group, res, meta, final):
         if e["ev"] != "open":
             outside.append(("event", e["ev"], str(e.get("args"))[:120]))
             continue
-        reg, rel = region_of(e["path"], root, res["input"], meta["cmap_dir"])
+        reg, rel = region_of(e.get("real") or e["path"], root, res["input"], meta["cmap_dir"])
         if reg in ("input", "code"):
             continue
         if e.get("write"):
@@ -298,7 +312,7 @@ def judge_cmap(ck, site, group, res, meta, final):
     if len(ck.samples) < 3 and observed:
         ck.sample({"site": site, "names": [fsdoc.seen_name(fsdoc.spell(n, "$ROOT")).replace("\0", "\\0")[:60] for n in names][:6],
                    "files_opened": sorted("/".join(d) + "/" + w for d, w in observed)})
-    case = {"site": site, "names": names, "observed_reads": sorted(map(str, observed)), "predicted_reads": sorted(map(str, predicted)),
+    case = {"site": site, "via": via, "names": names, "observed_reads": sorted(map(str, observed)), "predicted_reads": sorted(map(str, predicted)),
             "other": outside[:5], "exception": res["exc"]}
     for kind, reg, rel in outside:
         if kind == "read" and same and blamed:
@@ -322,13 +336,16 @@ def image_job(jid, r):
     def fin(j):
         doc_text = image_text(r, j["root"])
         text = fsdoc.seen_name(doc_text)
+        if r["ic"].get("src", "xobj").startswith("inline"):
+            text = "inline0"                            # the interpreter's name for the first inline image of a content stream
         # more than two exports: one per page of a many-pages document
-        pdf, _ = fsdoc.image_doc(doc_text, draws if draws <= 2 else 1, pages=1 if draws <= 2 else draws,
+        pdf, _ = fsdoc.image_doc(doc_text, draws if draws <= 2 or r["ic"].get("src", "xobj") != "xobj" else 1,
+                                 pages=1 if draws <= 2 or r["ic"].get("src", "xobj") != "xobj" else draws,
                                  ext=r["ic"].get("ext", "bmp"), src=r["ic"].get("src", "xobj"))
         j["pdf"] = base64.b64encode(pdf).decode()
         pre = []
         for k in init:
-            suffix = ("" if k < 0 else ".%d" % k) + EXT
+            suffix = ("" if k < 0 else ".%d" % k) + (fsdoc.IMAGE_VARIANTS[r["ic"].get("ext", "bmp")][1] or EXT)
             pre.append(text + suffix)                       # where the name lands as coded (if that place exists)
             pre.append(fsdoc.sanitised(text) + suffix)      # where a confined implementation would put it
         j["prefiles"] = pre
@@ -353,7 +370,7 @@ def judge_image(ck, r, res):
     reads = []
     for e in res["events"]:
         if e["ev"] == "open" and not e.get("write"):
-            reg, rel = region_of(e["path"], root, res["input"], "/nonexistent")
+            reg, rel = region_of(e.get("real") or e["path"], root, res["input"], "/nonexistent")
             if reg not in ("input", "code"):
                 reads.append((reg, rel))
     outside = [c for c in created if not c.startswith("out" + os.sep)]
@@ -366,6 +383,8 @@ def judge_image(ck, r, res):
     ext_text = fsdoc.IMAGE_VARIANTS[ext_kind][1]
     pred_created, pred_above = set(), 0
     for c in r["cr"]:
+        if src.startswith("inline"):
+            base = "inline%d" % c.get("w", 0)          # the interpreter numbers the inline images of one content stream
         if ext_text is None:
             # an ill-typed entry in the extension (only reachable with ExtFieldsUnvalidated): the text after the last separator
             fn = {"illclean": base + ".[1, 2].1x1.img", "lead1": "'pwned'.1x1.img"}.get(ext_kind, "?")
@@ -383,17 +402,10 @@ def judge_image(ck, r, res):
     if blocked:
         # the sandbox stopped the first write above the scratch root (and with it the extraction)
         same = set(created) <= pred_created and pred_above >= 1
-    elif src == "inline":
-        # the name of an inline image is not the document's (str(id(obj))): compare directory, extension and number
-        tails = sorted(os.path.join(os.path.dirname(p), os.path.basename(p)[len(base):]) for p in pred_created)
-        got = sorted(os.path.join(os.path.dirname(c), "." + os.path.basename(c).split(".", 1)[1] if "." in os.path.basename(c) else c)
-                     for c in created)
-        same = len(created) == len(pred_created) and pred_above == 0 and (real_err or None) == pred_err \
-            and [os.path.dirname(x) for x in got] == [os.path.dirname(x) for x in tails]
     else:
         same = set(created) == pred_created and pred_above == 0 and (real_err or None) == pred_err
     hostile = r["n"]["abs"] or any(s in ("dd", "e", "nul", "long", "dec", "sub", "d", "sib", "ndd", "n0") for s in r["n"]["segs"]) or len(r["n"]["segs"]) != 1
-    hostile = hostile or ext_kind not in ("bmp", "raw") or r["n"].get("look", "ascii") != "ascii"
+    hostile = hostile or ext_kind not in ("bmp", "raw") or r["n"].get("look", "ascii") != "ascii" or src != "xobj"
     ck.case(1, ("image", r["n"]["abs"], tuple(r["n"]["segs"]), r["n"].get("look", "ascii"), tuple(init), draws, ext_kind, src) if hostile or init else None)
     case = {"site": "image", "name": r["n"], "init": init, "draws": draws, "ext": ext_kind, "src": src, "created": created, "modified": res["modified"],
             "deleted": res["deleted"], "blocked_outside_scratch": [e.get("path") for e in blocked], "exception": res["exc"],
@@ -560,13 +572,13 @@ def replay(path):
                        or [e for e in out["events"] if e.get("blocked") and e.get("would", "create") == "create"])
         elif "names" in case:
             group = [{"n": n, "rd": [], "bl": []} for n in case["names"]]
-            res, meta = run_workers(ck, [cmap_job(0, case["site"], group)], "replay", nproc=1)
+            res, meta = run_workers(ck, [cmap_job(0, case["site"], group, case.get("via", "res"))], "replay", nproc=1)
             out = res[0]
             root = os.path.dirname(out["input"])
             bad = False
             for e in out["events"]:
                 if e["ev"] == "open":
-                    reg, rel = region_of(e["path"], root, out["input"], meta["cmap_dir"])
+                    reg, rel = region_of(e.get("real") or e["path"], root, out["input"], meta["cmap_dir"])
                     print("open", reg, rel, "write" if e.get("write") else "read")
                     bad |= reg not in ("input", "code", "res", "pkg")
         else:
